@@ -32,6 +32,9 @@ type c11Case struct {
 	// instead of a history: the direct BTree.insert driver with this many keys
 	Big     int  `json:"big,omitempty"`
 	BigFile bool `json:"big_file,omitempty"`
+	// Frontier > 0: the history starts in a data file whose allocation frontier stands at this offset (a
+	// database that has grown to 16 MiB, 2 GiB, 4 GiB): the pages the history allocates lie around that size
+	Frontier uint64 `json:"frontier,omitempty"`
 }
 
 // ---------------------------------------------------------------- walker
@@ -277,6 +280,9 @@ var c11Rel = &Relation{Fields: []FieldDef{{Name: "a", DataType: TypeInt}, {Name:
 
 func c11Gen(t *rapid.T) c11Case {
 	var c c11Case
+	if rapid.IntRange(0, 5).Draw(t, "bigfile") == 0 {
+		c.Frontier = rapid.SampledFrom([]uint64{1<<24 - 2*pageSize, 1<<24 - 5*pageSize, 1<<24 + pageSize, 1<<31 - 3*pageSize, 1<<32 - 2*pageSize, 1<<32 - 6*pageSize}).Draw(t, "frontier")
+	}
 	n := rapid.IntRange(10, 120).Draw(t, "nops")
 	ntables, maxTables := 0, 4
 	if rapid.IntRange(0, 4).Draw(t, "manytables") == 0 {
@@ -358,6 +364,14 @@ func c11Run(c c11Case, st *vlib.Stats) string {
 			rs.VerifAbandon()
 		}
 	}()
+	if c.Frontier > rs.fs.nextFreeOffset {
+		// (the space in between is never referenced by anything; the file stays sparse)
+		rs.fs.nextFreeOffset = c.Frontier
+		if err := rs.fs.save(); err != nil {
+			return "saving the header failed: " + err.Error()
+		}
+		st.Label("large-file(allocation frontier at 16 MiB / 2 GiB / 4 GiB)", 1)
+	}
 	var tables []string
 	live := map[string][]uint32{}
 	dead := map[string]map[uint32]bool{}
